@@ -72,6 +72,10 @@ OTHER_CHECKS = [
      "WriterInst.tla: one action per DataWriterAsync call (register_instance, unregister_instance, dispose, write, lookup_instance, enable) on a writer created on a keyed or keyless type, enabled or not yet enabled; the abstract state is the set of registered keys; TLC enumerates all histories of <= 6 calls over 2 keys (39 states, 325 transitions) and every transition is replayed on a real writer inside the deterministic simulation: return code, returned handle (= big-endian key padded to 16 bytes) and, after every step, lookup_instance of every key are compared.",
      "6 C28", GRAPH_NOTE + " max_instances/OutOfResources and the handle argument of write/dispose/unregister are outside the model; lookup_instance on a keyless type is not constrained.",
      "explicit TLA+ spec + TLC; every transition replayed through the public API in the deterministic simulation"),
+    ("C37", "model_checking",
+     "Qos.tla: QoS values are records of the policies the rules talk about (reliability, history, resource limits, deadline, time based filter, representation, user/topic/group data, presentation, partition); Consistent and ImmutableChanged are defined per entity kind; actions Create / SetQos / Enable with the DDS return code, the QoS held afterwards and what a remote participant sees (Announced). TLC enumerates all histories of <= 4 calls over curated value sets that hit every rule (6 kinds: writer, reader, topic, publisher, subscriber, participant; 170 states, 1 004 transitions; invariants AlwaysConsistent, ImmutableKept). Every transition is replayed on real entities inside the deterministic simulation with two participants: return code, get_qos and the QoS read from the second participant's built-in readers (DCPSPublication, DCPSSubscription, DCPSTopic, DCPSParticipant) are compared after every step.",
+     "6 C37", GRAPH_NOTE + " Value sets are curated (5-8 values per kind), not the full QoS space; durability, liveliness, ownership, destination order as immutable policies are represented by reliability/history/resource limits only; set_default_*_qos is not in the model.",
+     "explicit TLA+ spec + TLC; every transition replayed through the public API in a two-participant deterministic simulation"),
     ("C36", "model_checking",
      "Entities.tla gives the DDS return code of every create / delete / get_qos / delete_contained_entities / delete_participant call as a function of the entity tree (children present, topic in use, already deleted, wrong parent); TLC enumerates all histories of <= 6 operations (2 publishers, 1 subscriber, 2 topics with 2 names, 2 writers, 1 reader; 1 559 states, 7 247 transitions) and every transition is replayed through the async API in the simulation and compared.",
      "5.8, 6 C36", GRAPH_NOTE + " Content-filtered topics and set_listener on deleted entities are not in the model yet.",
